@@ -13,6 +13,10 @@ pub fn c12dec(args: &[String]) {
     let (mut n, mut bad) = (0u64, 0u64);
     let mut mism: Vec<Value> = vec![];
     let mut samples: Vec<Value> = vec![];
+    // long-lived tables: one is reset and rebuilt for every case, one takes over every case's table with reinit_from
+    // (what happens to the sequence tables of a decoder from frame to frame and when a dictionary is loaded)
+    let mut rebuilt = FSETable::new(255);
+    let mut copied = FSETable::new(255);
     for line in f.lines() {
         let c: Value = serde_json::from_str(&line.unwrap()).unwrap();
         n += 1;
@@ -39,6 +43,16 @@ pub fn c12dec(args: &[String]) {
                 let want = (e[0].as_u64().unwrap(), e[1].as_u64().unwrap(), e[2].as_u64().unwrap());
                 if got != want {
                     return Err(format!("state {i}: (symbol, bits, baseline) = {:?}, specified {:?}", got, want));
+                }
+            }
+            // the same description into a table that held another one before; and the table handed over with reinit_from
+            rebuilt.reset();
+            rebuilt.build_decoder(&bytes, 9).map_err(|e| format!("a reused table refuses the description: {e}"))?;
+            copied.reinit_from(&t);
+            for (what, r) in [("rebuilt after reset", &rebuilt), ("taken over with reinit_from", &copied)] {
+                if r.accuracy_log != t.accuracy_log || r.decode.len() != t.decode.len()
+                    || (0..t.decode.len()).any(|i| (r.decode[i].symbol, r.decode[i].num_bits, r.decode[i].base_line) != (t.decode[i].symbol, t.decode[i].num_bits, t.decode[i].base_line)) {
+                    return Err(format!("the table {what} (a table object that held another table before) has {} states / differs from the freshly built one with {}", r.decode.len(), t.decode.len()));
                 }
             }
             // the reader's limits: accepted exactly within them
